@@ -1,5 +1,168 @@
-(* C09 -- placeholder while the model is validated; replaced by the final statements *)
-From Httoop Require Import Lib.Bytes Model.Element.
-Theorem C09_placeholder : forall h : bytes, h = h.
-Proof. reflexivity. Qed.
-Print Assumptions C09_placeholder.
+(* C09 -- header element parameters survive compose and parse.
+   Only final statements here, each closed by [exact] and followed by Print Assumptions.
+   Model: Model/Element.v (formatparam / compose, parseparams / parseparam / unescape_param, RFC 2231-5987
+   assembly, class sanitising) on top of Model/HeadersApi.v (RFC 2047 guard, quote-parity split) and
+   Model/Percent.v.  Callees (email.header.decode_header = dechdr, codecs outside the regenerated alias table =
+   cs_other) are universally quantified; [pv] is the escape width of Percent.quote (finding D1), [vew] the
+   encoded-word guard (D15): the theorems hold for every value of both. *)
+From Httoop Require Import Lib.Bytes Lib.Split Lib.Variant Gen.ElementT Gen.PercentT
+  Model.Headers Model.HeadersApi Model.Percent Model.Element Proofs.Percent Proofs.HeadersApi Proofs.Element.
+Local Open Scope N_scope.
+
+(* ---- escaping inside a quoted value is inverted by the unescape regex, away from D17 ---- *)
+Theorem C09_unescape_escape_partial : forall v, clean_q v = true -> unesc (escape_q v) = v.
+Proof. exact unesc_escape. Qed.
+Print Assumptions C09_unescape_escape_partial.
+Theorem C09_backslash_pair_refuted : exists v, nosep DQ v = true /\ unesc (escape_q v) <> v.
+Proof. exact unesc_escape_backslash_refuted. Qed.
+Print Assumptions C09_backslash_pair_refuted.
+Theorem C09_backslash_dquote_refuted : exists v, no_bs_pair v = true /\ unesc (escape_q v) <> v.
+Proof. exact unesc_escape_dquote_refuted. Qed.
+Print Assumptions C09_backslash_dquote_refuted.
+
+(* ---- one parameter: parseparam (formatparam k v) = (k, v), for any tspecials class; quoted values may contain
+   every separator, "=", whitespace and single backslashes ---- *)
+Theorem C09_param_roundtrip : forall tsp ck k v, key_ok k = true -> val_ok tsp v = true -> v <> [] ->
+  parseparam tsp ck (fmt_kv tsp k v) = Some (k, v, has_tsp tsp v).
+Proof. exact parseparam_fmt_kv. Qed.
+Print Assumptions C09_param_roundtrip.
+Example C09_param_roundtrip_nonvacuous :
+  key_ok (X "66696c656e616d65") = true /\ val_ok TSPECIALS (X "61203b2c3d2062275c632e747874") = true /\
+  has_tsp TSPECIALS (X "61203b2c3d2062275c632e747874") = true.
+Proof. vm_compute. repeat split. Qed.
+
+(* a str value of any content (ASCII: plain or quoted; anything else: RFC 5987 utf-8''pct-encoded) *)
+Theorem C09_text_param_roundtrip : forall tsp ck pv k t,
+  tsp_ok tsp = true -> key_ok k = true -> pval_ok tsp pv t = true ->
+  exists atom it u, formatparam tsp pv k (PT t) = Some atom /\ utf8_enc t = Some u /\ par_spec tsp ck k atom it u.
+Proof. exact param_roundtrip. Qed.
+Print Assumptions C09_text_param_roundtrip.
+
+(* ---- the whole element: compose then parse gives back the value and exactly the parameters (names, values as
+   UTF-8, order), for every element class parameterised by its tspecials set and key normaliser.
+   value_ok: non-empty, no double quote / semicolon / comma, no leading or trailing whitespace (a token qualifies);
+   params_ok: distinct lower-case names free of separators and "*", values [pval_ok];
+   the composed element must not open an RFC 2047 word (finding D16 otherwise) ---- *)
+Theorem C09_roundtrip_partial : forall tsp ck pv, tsp_ok tsp = true ->
+  forall vew dechdr cs_other value ps, value_ok value = true -> params_ok tsp pv ps = true ->
+  exists composed outs,
+    compose_raw tsp pv value (as_pvals ps) = Some composed /\
+    Forall2 (fun kt o => fst o = fst kt /\ utf8_enc (snd kt) = Some (snd o)) ps outs /\
+    (looks_encoded vew composed = false ->
+       parse_elem vew dechdr cs_other tsp ck composed = Some (latin1_to_utf8 value, outs)) /\
+    solid COMMA composed /\ ends_ok composed = true.
+Proof. exact elem_roundtrip. Qed.
+Print Assumptions C09_roundtrip_partial.
+
+(* both tspecials classes of the library qualify *)
+Theorem C09_classes_qualify : tsp_ok TSPECIALS = true /\ tsp_ok COOKIE_TSPECIALS = true.
+Proof. exact (conj tsp_ok_generic tsp_ok_cookie). Qed.
+Print Assumptions C09_classes_qualify.
+
+(* for the generic class (HeaderElement, Content-Type, Content-Disposition) an ASCII value only needs: no double
+   quote, no backslash pair (D17), no leading or trailing whitespace; separators force quoting by themselves *)
+Theorem C09_generic_value_condition : forall v, clean_q v = true -> ends_ok v = true -> val_ok TSPECIALS v = true.
+Proof. exact val_ok_generic. Qed.
+Print Assumptions C09_generic_value_condition.
+
+Example C09_roundtrip_nonvacuous :
+  value_ok (X "6174746163686d656e74") = true /\
+  params_ok TSPECIALS AsFound
+    [(X "66696c656e616d65", [0x61; 0x3b; 0x20; 0x62; 0x2c; 0x3d; 0x5c; 0x63]); (X "6e616d65", [0x20ac; 0x20; 0xe9; 0x22]); (X "78", []); (X "7a", [0x74; 0x6f; 0x6b])] = true /\
+  params_ok COOKIE_TSPECIALS Repaired [(X "70617468", [0x2f; 0x61; 0x20; 0x62]); (X "65", [0x01; 0x20ac])] = true.
+Proof. vm_compute. repeat split. Qed.
+
+(* the class-specific constructors leave such elements alone *)
+Theorem C09_class_generic : forall vew dechdr cs_other s v ps,
+  parse_elem vew dechdr cs_other TSPECIALS false s = Some (v, ps) ->
+  parse_cls vew dechdr cs_other EGeneric s = PElem v None ps.
+Proof. exact parse_cls_generic. Qed.
+Print Assumptions C09_class_generic.
+Theorem C09_class_content_type : forall vew dechdr cs_other s v ps,
+  parse_elem vew dechdr cs_other TSPECIALS false s = Some (v, ps) -> hget BOUNDARY ps = None ->
+  parse_cls vew dechdr cs_other EContentType s = PElem v None ps.
+Proof. exact parse_cls_ctype. Qed.
+Print Assumptions C09_class_content_type.
+Theorem C09_class_disposition : forall vew dechdr cs_other s v ps,
+  parse_elem vew dechdr cs_other TSPECIALS false s = Some (v, ps) ->
+  disp_value v = true -> disp_keys_ok (map fst ps) = true ->
+  parse_cls vew dechdr cs_other EDisposition s = PElem v None ps.
+Proof. exact parse_cls_disp. Qed.
+Print Assumptions C09_class_disposition.
+
+(* cookies: the constructor re-parses name=value; for a lower-case name without "=" and a value that is not wrapped in
+   double quotes (both ASCII, no surrounding whitespace) the element is name, value and the parameters *)
+Theorem C09_class_cookie : forall vew dechdr cs_other s n v ps,
+  cookie_name_ok n = true -> cookie_value_ok v = true ->
+  parse_elem vew dechdr cs_other COOKIE_TSPECIALS true s = Some (latin1_to_utf8 (n ++ EQ :: v), ps) ->
+  parse_cls vew dechdr cs_other ECookie s = PElem (n ++ EQ :: v) (Some (n, v)) ps.
+Proof. exact parse_cls_cookie. Qed.
+Print Assumptions C09_class_cookie.
+Example C09_class_cookie_nonvacuous :
+  cookie_name_ok (X "736964") = true /\ cookie_value_ok (X "61622f632b3d3d") = true /\ value_ok (X "7369643d61622f632b3d3d") = true.
+Proof. vm_compute. repeat split. Qed.
+
+(* construction through the API (str value, dict of str parameters) composes exactly what the theorems start from *)
+Theorem C09_api_compose_generic : forall pv tv ck ps, is_ascii_text tv = true ->
+  compose_cls pv EGeneric tv ck ps = of_opt (compose_raw TSPECIALS pv (latin1_enc tv) ps).
+Proof. exact compose_cls_generic. Qed.
+Print Assumptions C09_api_compose_generic.
+
+(* ---- a semicolon, comma (any separator octet) between a pair of double quotes never splits: whatever precedes
+   the quoted string and whatever (with balanced quotes) follows it, RE_PARAMS / RE_SPLIT keep the quoted string
+   in one piece, glued to the last piece before it and the first piece after it ---- *)
+Theorem C09_semicolon_comma_safe : forall sep a q b pa la hb tb,
+  nosep DQ q = true -> dq_odd b = false ->
+  psplit sep a = pa ++ [la] -> psplit sep b = hb :: tb ->
+  psplit sep (a ++ DQ :: q ++ DQ :: b) = pa ++ [la ++ DQ :: q ++ DQ :: hb] ++ tb.
+Proof. exact quoted_never_split. Qed.
+Print Assumptions C09_semicolon_comma_safe.
+
+(* ... and an equals sign inside a quoted value is never the one parseparam cuts at *)
+Theorem C09_equals_safe : forall tsp ck k v, ends_ok k = true -> lower k = k -> nosep EQ k = true -> clean_q v = true ->
+  parseparam tsp ck (k ++ [EQ; DQ] ++ escape_q v ++ [DQ]) = Some (k, v, true).
+Proof. exact parseparam_quoted. Qed.
+Print Assumptions C09_equals_safe.
+
+(* ---- lists: joined elements split back into exactly the elements (every composed element of
+   C09_roundtrip_partial satisfies the premise) ---- *)
+Theorem C09_list_split : forall es, es <> [] -> Forall (fun e => solid COMMA e /\ ends_ok e = true) es ->
+  esplit (join_with [COMMA; SP] es) = es.
+Proof. exact list_split. Qed.
+Print Assumptions C09_list_split.
+
+(* ---- the excluded classes are really excluded (each witness is replayed on the implementation) ---- *)
+Theorem C09_dquote_refuted : forall dechdr cs_other, exists value ps composed,
+  value_ok value = true /\ compose_raw TSPECIALS Repaired value (as_pvals ps) = Some composed /\
+  looks_encoded Repaired composed = false /\
+  parse_elem Repaired dechdr cs_other TSPECIALS false composed <> Some (latin1_to_utf8 value, [( [x61], [x78; x22; x79] )]) /\
+  ps = [([x61], [0x78; 0x22; 0x79])].
+Proof. exact dquote_refuted. Qed.
+Print Assumptions C09_dquote_refuted.
+Theorem C09_backslash_refuted : forall dechdr cs_other, exists value ps composed,
+  value_ok value = true /\ compose_raw TSPECIALS Repaired value (as_pvals ps) = Some composed /\
+  looks_encoded Repaired composed = false /\
+  parse_elem Repaired dechdr cs_other TSPECIALS false composed <> Some (latin1_to_utf8 value, [( [x61], [x5c; x5c] )]) /\
+  ps = [([x61], [0x5c; 0x5c])].
+Proof. exact backslash_refuted. Qed.
+Print Assumptions C09_backslash_refuted.
+Theorem C09_low_octet_asfound_refuted : forall dechdr cs_other, exists value ps composed,
+  value_ok value = true /\ compose_raw TSPECIALS AsFound value (as_pvals ps) = Some composed /\
+  looks_encoded Repaired composed = false /\
+  parse_elem Repaired dechdr cs_other TSPECIALS false composed <> Some (latin1_to_utf8 value, [( [x61], [x01; xe2; x82; xac] )]) /\
+  ps = [([x61], [0x01; 0x20ac])].
+Proof. exact low_octet_refuted. Qed.
+Print Assumptions C09_low_octet_asfound_refuted.
+Theorem C09_cookie_semicolon_refuted : forall dechdr cs_other, exists value ps composed,
+  value_ok value = true /\ compose_raw COOKIE_TSPECIALS Repaired value (as_pvals ps) = Some composed /\
+  looks_encoded Repaired composed = false /\
+  parse_elem Repaired dechdr cs_other COOKIE_TSPECIALS true composed <>
+    Some (latin1_to_utf8 value, [( [x70; x61; x74; x68], [x2f; x61; x3b; x62] )]) /\
+  ps = [([x70; x61; x74; x68], [0x2f; 0x61; 0x3b; 0x62])].
+Proof. exact cookie_semicolon_refuted. Qed.
+Print Assumptions C09_cookie_semicolon_refuted.
+Theorem C09_encoded_word_hypothesis_needed : exists value ps composed,
+  value_ok value = true /\ params_ok TSPECIALS Repaired ps = true /\
+  compose_raw TSPECIALS Repaired value (as_pvals ps) = Some composed /\ looks_encoded Repaired composed = true.
+Proof. exact encoded_word_hypothesis_needed. Qed.
+Print Assumptions C09_encoded_word_hypothesis_needed.
